@@ -184,4 +184,110 @@ theorem cfiOf_linkG {a : Arch} {w : World} {mask : Nat} {mem : Mem} {f : Frame} 
           rfl
         · simp only [savedAt, hrec, hsaved, Option.getD_some]
 
+/-! ### one `get_caller_frame`, the chain -/
+
+theorem cfiLinkG_epilogue {a : Arch} {w : World} {mask : Nat} {mem : Mem} {f : Frame} {e : Exp}
+    (hl : cfiLinkG w a mask mem f e = true) :
+    effArch a f.ctx = a ∧ 4096 ≤ e.ret ∧ e.sp ≤ a.regMax ∧
+      (f.ctx.sp < e.sp ∨ (a.leafOk = true ∧ f.trust = .context ∧ e.sp = f.ctx.sp)) := by
+  unfold cfiLinkG at hl
+  simp only [Bool.and_eq_true, decide_eq_true_eq] at hl
+  obtain ⟨⟨⟨⟨heff, h4096⟩, hspmax⟩, _⟩, hm⟩ := hl
+  refine ⟨heff, h4096, hspmax, ?_⟩
+  cases hrec : cfiRecordAt w f.instruction with
+  | none => rw [hrec] at hm; cases hm
+  | some rec =>
+    rw [hrec] at hm
+    simp only [Bool.and_eq_true] at hm
+    obtain ⟨⟨⟨_, hshape⟩, _⟩, _⟩ := hm
+    split at hshape
+    · rename_i hleaf
+      simp only [Bool.and_eq_true, decide_eq_true_eq] at hshape
+      exact Or.inr ⟨hleaf.2.1, hleaf.1, hshape.1.1⟩
+    · simp only [Bool.and_eq_true, decide_eq_true_eq] at hshape
+      exact Or.inl hshape.1.1.1.1.1.1
+
+theorem cfiViewG_transfer {a : Arch} {w : World} {mask : Nat} {mem : Mem} {f st : Frame} (e : Exp)
+    (hv : CfiView a f st) :
+    CfiInv a f ∧ cfiLinkG w a mask mem f e = cfiLinkG w a mask mem st e ∧
+      cfiFrameG w a mask mem f e = cfiFrameG w a mask mem st e := by
+  obtain ⟨h1, h2, h3, h4⟩ := hv
+  refine ⟨?_, ?_, ?_⟩
+  · unfold CfiInv at *
+    rw [h1, h2]; exact h4
+  · unfold cfiLinkG callerReg
+    rw [h1, h2, h3]
+  · unfold cfiFrameG
+    rw [h1, h3]
+
+/-- **one `get_caller_frame` on a frame covered by a canonical record saving several registers** -/
+theorem step_cfiG {env : Env} {a : Arch} {w : World} {mem : Mem} (harch : env.arch = a)
+    (hcfi : env.cfi = cfiOf a w (modTable w.mods) (cfiTables w) env.mask mem)
+    (f : Frame) (g : Option Frame) (st : Frame) (e : Exp)
+    (hv : CfiView a f st) (hl : cfiLinkG w a env.mask mem st e = true) :
+    step env mem f g = some (cfiFrameG w a env.mask mem st e) := by
+  obtain ⟨hinv, hle, hfe⟩ := cfiViewG_transfer (w := w) (mask := env.mask) (mem := mem) e hv
+  rw [← hle] at hl
+  rw [← hfe]
+  obtain ⟨_, h4096, _, hsp⟩ := cfiLinkG_epilogue hl
+  have hc := cfiOf_linkG (g := g) hinv hl
+  unfold step
+  simp only [harch, hinv.1, candidate, hcfi, hc]
+  unfold epilogue
+  have hip : (cfiFrameG w a env.mask mem f e).ctx.ip = e.ret := rfl
+  have hsp' : (cfiFrameG w a env.mask mem f e).ctx.sp = e.sp := rfl
+  rw [hip, hsp', nullish_eq, if_neg (by omega)]
+  rcases hsp with h | ⟨h1, h2, h3⟩
+  · rw [if_neg (by omega)]
+    rfl
+  · rw [if_neg (by simp [h1, h2, h3])]
+    rfl
+
+theorem cfiFrameG_view {a : Arch} {w : World} {mask : Nat} {mem : Mem} (st : Frame) (e : Exp)
+    (hl : cfiLinkG w a mask mem st e = true) :
+    CfiView a (cfiFrameG w a mask mem st e) (cfiFrameG w a mask mem st e) := by
+  obtain ⟨heff, _, hspmax, _⟩ := cfiLinkG_epilogue hl
+  exact ⟨rfl, rfl, rfl, heff, Or.inr ⟨by simp [cfiFrameG], rfl⟩, hspmax⟩
+
+theorem preCfiG_foldr (w : World) (a : Arch) (mask : Nat) (mem : Mem) (chain : List Exp) (st : Frame) :
+    preCfiG w a mask mem st chain =
+      (chain.foldr (fun e (k : Frame → Bool) => fun st =>
+          mem.inRange st.ctx.sp && cfiLinkG w a mask mem st e && k (cfiFrameG w a mask mem st e))
+        (fun st => !mem.inRange st.ctx.sp || cfiEnd w a mem st)) st := by
+  induction chain generalizing st with
+  | nil => rfl
+  | cons e rest ih => simp only [preCfiG, List.foldr_cons, ih]
+
+theorem expectedCfiG_foldr (env : Env) (w : World) (a : Arch) (mem : Mem) (chain : List Exp) (st : Frame) :
+    expectedCfiG env w a mem st chain =
+      (chain.foldr (fun e (k : Frame → List Frame) => fun st =>
+          symbolise env (cfiFrameG w a env.mask mem st e) :: k (cfiFrameG w a env.mask mem st e)) (fun _ => [])) st := by
+  induction chain generalizing st with
+  | nil => rfl
+  | cons e rest ih => simp only [expectedCfiG, List.foldr_cons, ih]
+
+/-- **canonical STACK CFI chains with saved-register groups, any depth** — an instance of
+    `walkLoop_chain_generic` -/
+theorem walkLoop_cfiG_chain {env : Env} {a : Arch} {w : World} {mem : Mem} (harch : env.arch = a)
+    (hcfi : env.cfi = cfiOf a w (modTable w.mods) (cfiTables w) env.mask mem)
+    (hok0 : a = .arm → env.instrOk 0 = false) :
+    ∀ (chain : List Exp) (n : Nat) (f : Frame) (g : Option Frame) (st : Frame),
+      CfiView a f st → preCfiG w a env.mask mem st chain = true → need mem f ≤ n →
+      walkLoop env mem n f g = symbolise env f :: expectedCfiG env w a mem st chain := by
+  intro chain n f g st hv hp hn
+  rw [expectedCfiG_foldr]
+  rw [preCfiG_foldr] at hp
+  exact walkLoop_chain_generic (σ := Frame) (CfiView a) (cfiLinkG w a env.mask mem) (cfiEnd w a mem)
+    (fun st => st.ctx.sp) (cfiFrameG w a env.mask mem) (cfiFrameG w a env.mask mem)
+    (fun f st h => by rw [h.1])
+    (fun f st h => h)
+    (fun f g st e h hl => step_cfiG harch hcfi f g st e h hl)
+    (fun st e hl => cfiFrameG_view st e hl)
+    (fun f g st h he => by
+      obtain ⟨h1, h2, h3, h4⟩ := h
+      have hinv : CfiInv a f := by unfold CfiInv at *; rw [h1, h2]; exact h4
+      have he' : cfiEnd w a mem f = true := by unfold cfiEnd at *; rw [h1, h3]; exact he
+      exact step_cfi_end harch hcfi hok0 f g hinv he')
+    chain n f g st hv hp hn
+
 end MdModel.Walk
